@@ -96,7 +96,9 @@ Definition inst_wf_b (i : lark_inst) : bool :=
 Inductive ccase :=
 (* the real Lark.save(f, excl) wrote {'data': data, 'memo': mj} for the instance i *)
 | CSave (i : lark_inst) (excl : list string) (data mj : value)
-(* the real Lark._load({'data': data, 'memo': mj}, **kw) returned [expected] (None: it raised) *)
+(* the real Lark.save(f, excl) wrote the same dict as Lark.save(f) except for data['options'] = opts *)
+| CSaveOpts (i : lark_inst) (excl : list string) (data mj opts : value)
+(* the real Lark._load({'data': data, 'memo': mj}, kw) returned [expected] (None: it raised) *)
 | CLoad (data mj : value) (kw : options) (expected : option lark_inst)
 (* ParseTable.serialize(fresh memo) of the table t returned [expected]; the memo then serialised to [mj] *)
 | CTable (t : table) (expected mj : value)
@@ -110,6 +112,11 @@ Definition check_case (c : ccase) : bool :=
       match save i excl with
       | Some (d, m) => value_eqb d data && value_eqb m mj
       | None => false
+      end
+  | CSaveOpts i excl data mj opts =>
+      match save i excl, data with
+      | Some (d, m), VDict d0 => value_eqb d (VDict (dset "options" opts d0)) && value_eqb m mj
+      | _, _ => false
       end
   | CLoad data mj kw expected =>
       match load (data, mj) kw, expected with
